@@ -16,6 +16,7 @@ direct evaluation and checks independence of events, of earlier calls and of
 scalar / per-event temperature on sampled inputs.
 """
 import ast
+import json
 
 import numpy as np
 import z3
@@ -273,6 +274,44 @@ def frame_get_emodulus():
                                 and base.id in module_names and fn.name not in ("register_lut",):
                             problems_f3.append(f"{rel}:{fn.name} line {st.lineno} writes module-level '{base.id}'")
     res.append(("F3 emodulus package: no memoisation and no module-level state besides register_lut", problems_f3))
+    # F4: load_lut hands out arrays of its own (F2 counts its result as created by get_emodulus)
+    problems_f4 = []
+    ll = _fn(EMO + "load.py", "load_lut")
+    last = {}
+    for st in ast.walk(ll):
+        if isinstance(st, ast.Assign):
+            for t in st.targets:
+                for nm in ([t] if isinstance(t, ast.Name) else (list(t.elts) if isinstance(t, ast.Tuple) else [])):
+                    if isinstance(nm, ast.Name) and nm.id in ("lut", "meta"):
+                        last.setdefault(nm.id, []).append(st)
+    def copies(v):
+        """expression forms that are known to return a new array"""
+        if not isinstance(v, ast.Call):
+            return False
+        cn = callee_name(v)
+        kw = {k.arg: ast.unparse(k.value) for k in v.keywords}
+        if cn in ("np.array", "numpy.array"):
+            return kw.get("copy", "True") == "True"          # np.array copies unless told otherwise
+        if cn in ("np.copy", "numpy.copy", "copy.copy", "copy.deepcopy"):
+            return True
+        if isinstance(v.func, ast.Attribute) and v.func.attr == "copy":
+            return True
+        if isinstance(v.func, ast.Attribute) and v.func.attr == "astype":
+            return kw.get("copy", "True") == "True"
+        return False
+    for st in last.get("lut", []):
+        v = st.value
+        src = ast.unparse(v)
+        if copies(v) or (isinstance(v, ast.Call) and callee_name(v) == "load_mtext") \
+                or (isinstance(v, ast.Name) and v.id == "lut_data"):
+            continue        # (unpacking of the tuple must be followed by a copy: checked below)
+        problems_f4.append(f"line {st.lineno}: lut = {src[:60]} is neither a copy of the caller's array nor a table read "
+                           f"from a file")
+    if not any(copies(st.value) for st in last.get("lut", [])):
+        problems_f4.append("the (array, metadata) branch never copies the caller's array")
+    if not any(isinstance(st.value, ast.Call) and callee_name(st.value) == "copy.deepcopy" for st in last.get("meta", [])):
+        problems_f4.append("the (array, metadata) branch never copies the caller's metadata")
+    res.append(("F4 load_lut: the table handed out is a copy of the caller's array or freshly read from a file", problems_f4))
     return res
 
 
@@ -413,6 +452,20 @@ def _replay_end_to_end(inp):
             if not np.allclose(u2, 2 * u1, rtol=1e-6, equal_nan=True):
                 return {"failed": True, "detail": "after the user LUT file was rewritten (moduli doubled) the result still follows "
                                                   "the old content: the value depends on an earlier call"}
+            # a LUT handed over as (array, metadata): used twice, the caller's array stays as it is
+            lut_arr, lut_meta = load.load_lut("LE-2D-FEM-19")
+            lut_arr = np.array(lut_arr, dtype=float)
+            keep_arr, keep_meta = lut_arr.copy(), json.loads(json.dumps(lut_meta))
+            t1 = get_emodulus(area_um=area, deform=deform, medium=3.0, temperature=None, visc_model=None,
+                              lut_data=(lut_arr, lut_meta), **kw)
+            t2 = get_emodulus(area_um=area, deform=deform, medium=3.0, temperature=None, visc_model=None,
+                              lut_data=(lut_arr, lut_meta), **kw)
+            if not np.array_equal(lut_arr, keep_arr) or lut_meta != keep_meta:
+                return {"failed": True, "detail": "get_emodulus modified the look-up table array (or its metadata) that the caller "
+                                                  "passed as (array, metadata)"}
+            if not np.allclose(t1, t2, rtol=1e-12, equal_nan=True) or not np.allclose(t1, u1, rtol=1e-9, equal_nan=True):
+                return {"failed": True, "detail": "the same (array, metadata) look-up table gives different moduli on the second call "
+                                                  "or differs from the same table read from a file"}
     return {"failed": False, "detail": "end-to-end properties hold on the sampled inputs"}
 
 
